@@ -157,7 +157,15 @@ func (s *Search) Mine(i int) bool { return i%s.Env.NShards == s.Env.Shard }
 
 // try runs one case and accounts for it; a violation is shrunk and recorded.
 func (s *Search) try(index uint64, tape *sim.Tape) *CaseOut {
+	// watchdog for "returns within time proportional to the input": a case normally takes
+	// micro- to milliseconds; one that is still running after the limit is reported by the
+	// driver as a hang only if it hangs again when replayed alone.
+	wd := time.AfterFunc(hangLimit(), func() {
+		fmt.Fprintf(os.Stderr, "\nVERIF-HANG site=%s\n", CurrentSite)
+		os.Exit(67)
+	})
 	out := s.F(s.Env, tape)
+	wd.Stop()
 	s.Res.Cases++
 	for k, v := range out.Stats {
 		s.Res.Stats[k] += v
@@ -251,6 +259,10 @@ type propDef struct {
 
 var props = map[string]*propDef{}
 
+func hangLimit() time.Duration {
+	return time.Duration(envUint("VERIF_HANG_MS", 60000)) * time.Millisecond
+}
+
 func envUint(name string, def uint64) uint64 {
 	if v := os.Getenv(name); v != "" {
 		n, err := strconv.ParseUint(v, 10, 64)
@@ -318,7 +330,12 @@ func RunFromEnv(t *testing.T) {
 				tape.Log = func(v uint64) { fmt.Fprintf(lf, "%d\n", v) }
 			}
 		}
+		wd := time.AfterFunc(hangLimit(), func() {
+			fmt.Fprintf(os.Stderr, "\nVERIF-HANG site=%s\n", CurrentSite)
+			os.Exit(67)
+		})
 		out := def.Case(env, tape)
+		wd.Stop()
 		res := map[string]any{"violation": out.V, "sample": out.Sample}
 		jb, _ := json.MarshalIndent(res, "", " ")
 		if env.Out != "" {
